@@ -43,7 +43,7 @@ func Shapes(f *ast.File, fset *gotoken.FileSet, src []byte) []string {
 			}
 		}
 	}
-	var keywordIdent bool
+	var keywordIdent, lambdaInHeader bool
 	var commentInOverload, envSplit, lambdaArgNewline, commentInMatrix, importRparen, parenLambdaBlock bool
 	commentIn := func(lo, hi gotoken.Pos) bool {
 		for _, g := range f.Comments {
@@ -119,7 +119,7 @@ func Shapes(f *ast.File, fset *gotoken.FileSet, src []byte) []string {
 		astx.Walk(n, astx.Options{}, func(x, _ goast.Node, _ string) bool {
 			switch v := x.(type) {
 			case *ast.LambdaExpr2:
-				braceInHeader = true
+				lambdaInHeader = true
 			case *ast.ComprehensionExpr:
 				if v.Tok == token.LBRACE {
 					braceInHeader = true
@@ -139,6 +139,18 @@ func Shapes(f *ast.File, fset *gotoken.FileSet, src []byte) []string {
 	hdrExpr := func(e ast.Expr) {
 		if e != nil {
 			header(e)
+			x := e
+			for {
+				p, ok := x.(*ast.ParenExpr)
+				if !ok {
+					break
+				}
+				x = p.X
+				switch x.(type) {
+				case *ast.LambdaExpr, *ast.LambdaExpr2: // `switch ((x, y) => (x(), y)) {`
+					braceInHeader = true
+				}
+			}
 		}
 	}
 	hdrStmt := func(s ast.Stmt) {
@@ -187,8 +199,8 @@ func Shapes(f *ast.File, fset *gotoken.FileSet, src []byte) []string {
 			if v.IsCommand() && len(v.Args) == 0 {
 				emptyCmd = true
 			}
-			if v.IsCommand() && len(v.Args) > 0 && line(v.Args[0].Pos()) > line(v.Fun.End()) {
-				cmdNextLine = true
+			if v.IsCommand() && len(v.Args) > 0 && (line(v.Args[0].Pos()) > line(v.Fun.End()) || v.Ellipsis.IsValid() && line(v.NoParenEnd) > line(v.Ellipsis)) {
+				cmdNextLine = true // `f (` line break `x...)` or `f (x...` line break `)`
 			}
 			if n := len(v.Args); n > 0 && !v.IsCommand() && v.Rparen.IsValid() {
 				switch v.Args[n-1].(type) {
@@ -251,6 +263,7 @@ func Shapes(f *ast.File, fset *gotoken.FileSet, src []byte) []string {
 	add(envSplit, "env-expr-split-over-lines")
 	add(commentInMatrix, "comment-in-matrix-lit")
 	add(braceInHeader, "brace-in-header")
+	add(lambdaInHeader, "lambda-block-in-header")
 	add(ellipsisInHeader, "elem-ellipsis-in-header")
 	add(parenLambdaBlock, "paren-lambda-block")
 	add(lambdaArgNewline, "lambda-last-arg-before-newline")
